@@ -194,22 +194,22 @@ PROPS["C12"] = {
     "lean": ["NB.Props.C12"],
     "gens": ["c12"],
     "profiles": ["release", "debug"],
-    "trusted": ["value-level model: BigUint `*` is Nat multiplication (C02); primitive exponent ops `& 1`, `>>= 1` are Nat ops",
-                "to_u64 / to_u128 are Some exactly below 2^64 / 2^128"],
+    "trusted": ["primitive exponent ops `& 1`, `>>= 1`, `== 0/1`, `> 1` on u8..u128/usize are Nat ops",
+                "layering (proved, not assumed): the digit-level model NB.Model.PowD (every `*` = Mul.mulRef / Mul.mulAssign on digit vectors, BigUint exponents narrowed through the to_u64/to_u128 models, is_one/is_zero/is_odd on digits) refines the value-level model NB.Model.Pow under P.ValidMul (gen_params_valid_mul, C02)"],
     "assumptions": COMMON_ASSUME,
-    "level_text": "Theorems pow_spec / pow_forms_spec (the pow_impl! loop returns exactly x^e for ALL x, e, in all four operand forms; one macro body for u8..u128/usize), pow_sq_phase and pow_acc_phase (invariants of the trailing-zero squaring phase and the accumulate phase), pow_fuel_sufficient (both loops terminate within the bit length of the exponent), pow_zero_zero (0^0 = 1), pow_big_spec / pow_big_narrowing (BigUint exponents: short-cuts, u64/u128 narrowing value-preserving, capacity panic exactly when x >= 2 and e >= 2^128), bigint_pow_spec / bigint_pow_big_spec / bigint_pow_sign / powsign_spec (BigInt: exactly x^e on the integers, negative iff x < 0 and e odd). Tied to the source by a 3-way differential run: exponents 0..300 exhaustively for 8 bases, every 10-bit exponent pattern, all 7 exponent types x 4 forms + inherent method, u64/u128 narrowing edges.",
-    "level_note": "Trusted: Lean kernel + {propext, Classical.choice, Quot.sound}; value-level layering on C02 (multiplication); exponents >= 2^32 with |base| >= 2 cannot be executed (memory) and are covered by the theorem only; correspondence strength bounded by the generators.",
+    "level_text": "Theorems pow_spec / pow_forms_spec (the pow_impl! loop returns exactly x^e for ALL x, e, in all four operand forms; one macro body for u8..u128/usize), pow_sq_phase and pow_acc_phase (invariants of the trailing-zero squaring phase and the accumulate phase), pow_fuel_sufficient (both loops terminate within the bit length of the exponent), pow_zero_zero (0^0 = 1), pow_big_spec / pow_big_narrowing (BigUint exponents: short-cuts, u64/u128 narrowing value-preserving, capacity panic exactly when x >= 2 and e >= 2^128), bigint_pow_spec / bigint_pow_big_spec / bigint_pow_sign / powsign_spec (BigInt: exactly x^e on the integers, negative iff x < 0 and e odd). Layer link (digit level): powD_refines / pow_bigD_refines / bigint_powD_refines (+ pow_sq_phaseD_refines, pow_acc_phaseD_refines) show that NB.Model.PowD -- the same control flow on digit vectors with C02's mulRef/mulAssign, the C08 to_u64/to_u128 models and digit-level is_one/is_zero/is_odd, all operator panics propagated -- returns on canonical inputs exactly the value-level outcome mapped through ofNat/BigInt.ofInt, hence powD_spec, pow_bigD_spec, bigint_powD_spec, bigint_pow_bigD_spec, powsign_bigD_spec (canonical digits of x^e; capacity panic iff x >= 2 and e >= 2^128) for all P with P.ValidMul, instantiated at the regenerated parameters (powD_spec_gen, bigint_powD_spec_gen); the driver's MODEL column runs PowD on the received limbs, no size cap. Tied to the source by a 3-way differential run: exponents 0..300 exhaustively for 8 bases, every 10-bit exponent pattern, all 7 exponent types x 4 forms + inherent method, u64/u128 narrowing edges.",
+    "level_note": "Trusted: Lean kernel + {propext, Classical.choice, Quot.sound}; the layering on C02 (multiplication) is a proved refinement (PowD -> Pow), not an assumption; exponents >= 2^32 with |base| >= 2 cannot be executed (memory) and are covered by the theorem only; correspondence strength bounded by the generators.",
 }
 
 PROPS["C13"] = {
     "lean": ["NB.Props.C13"],
     "gens": ["c13"],
     "profiles": ["release", "debug"],
-    "trusted": ["value-level model: BigUint/BigInt operators >> << - / % * + cmp and trailing_zeros are Nat/Int operators (C01-C03, C07); BigInt `/` is Int.tdiv",
-                "num-integer 0.1.47 default Integer::extended_gcd modelled from its pinned source"],
+    "trusted": ["layering (proved, not assumed): the digit-level model NB.Model.GcdD (trailing_zeros, >>= / << through biguint_shr/shl, cmp_slice, -=, / % mod_floor through div_rem_ref, * through mulRef, &a - b / &a + b by-value forms, += 1u32 / -= 1u32, BigInt / * - + cmp mod_floor on records) refines the value-level model NB.Model.Gcd for canonical operands whose digit count fits usize (GcdD.Small, true of every Vec) under P.ValidMul",
+                "num-integer 0.1.47 default Integer::extended_gcd modelled from its pinned source; its by-value BigInt operator forms are modelled by the ref/ref forms (differ only in buffer reuse; C10)"],
     "assumptions": COMMON_ASSUME,
-    "level_text": "Theorems gcd_spec (Stein's algorithm as coded = Nat.gcd for ALL a, b; stein_loop_spec: invariant, termination, no underflow; twos_valuation), gcd_zero_cases, lcm_spec / gcd_lcm_spec (= Nat.lcm, division by the gcd never fails), bigint_gcd_spec / bigint_lcm_spec / bigint_gcd_lcm_spec (= Int.gcd / Int.lcm, non-negative), egcd_spec / egcd_loop_spec (num-integer's loop: a*x + b*y = g and g = Int.gcd a b, all signs, fuel |b|+1 suffices), egcd_lcm_spec, is_multiple_of_spec / multiple_of_zero / bigint_is_multiple_of_spec (divisibility; only zero is a multiple of zero), next/prev_multiple_spec + _char (least/greatest multiple; divzero iff b = 0; no underflow), bigint_mod_floor_spec (= Int.fmod), bigint_next/prev_multiple_spec + _char (a + (-a) fmod b, a - a fmod b), is_even_spec / is_odd_spec (first digit decides), inc_spec / dec_spec. Tied to the source by a 3-way differential run over zeros, equal, divisibility, common powers of two spanning digits, Fibonacci neighbours, complete sign tables.",
-    "level_note": "Trusted: Lean kernel + {propext, Classical.choice, Quot.sound}; value-level layering on C01-C03/C07; Bezout coefficients are compared implementation-vs-model (exact) and implementation-vs-oracle through the identity a*x+b*y = gcd; correspondence strength bounded by the generators.",
+    "level_text": "Theorems gcd_spec (Stein's algorithm as coded = Nat.gcd for ALL a, b; stein_loop_spec: invariant, termination, no underflow; twos_valuation), gcd_zero_cases, lcm_spec / gcd_lcm_spec (= Nat.lcm, division by the gcd never fails), bigint_gcd_spec / bigint_lcm_spec / bigint_gcd_lcm_spec (= Int.gcd / Int.lcm, non-negative), egcd_spec / egcd_loop_spec (num-integer's loop: a*x + b*y = g and g = Int.gcd a b, all signs, fuel |b|+1 suffices), egcd_lcm_spec, is_multiple_of_spec / multiple_of_zero / bigint_is_multiple_of_spec (divisibility; only zero is a multiple of zero), next/prev_multiple_spec + _char (least/greatest multiple; divzero iff b = 0; no underflow), bigint_mod_floor_spec (= Int.fmod), bigint_next/prev_multiple_spec + _char (a + (-a) fmod b, a - a fmod b), is_even_spec / is_odd_spec (first digit decides), inc_spec / dec_spec. Layer link (digit level): steinLoopD_refines, gcdD_refines, lcmD_refines, next/prev_multipleD_refines, egcdLoopD_refines, egcdD_refines show that NB.Model.GcdD -- the same control flow on digit vectors / BigInt records with the digit-level operators of C01-C03/C07 (trailingZerosU, biguintShr/Shl, cmpSlice, subAssign, divRef, remRef with its to_u32 fast path, modFloor, mulRef, subRefVal, addAssign, addAssignU32/subAssignU32, BigInt.div/sub/add/modFloor/addU/subU, bigintMul, Core.BigInt.cmp), every operator panic propagated -- returns on canonical inputs exactly the value-level outcome mapped through ofNat/BigInt.ofInt; hence gcdD_spec, lcmD_spec, gcdLcmD_spec, is_multiple_ofD_spec, next/prev_multipleD_spec, incD/decD_spec, bigint_gcdD/lcmD/gcd_lcmD_spec, egcdD_spec (canonical g, x, y with a*x + b*y = g = Int.gcd a b), egcd_lcmD_spec, bigint_is_multiple_ofD_spec, bigint_next/prev_multipleD_spec, bigint_inc_decD_spec; twosD_spec ties trailing_zeros on digits to the 2-adic valuation. Extra hypotheses: GcdD.Small (digit count < usize range) where shifts occur, P.ValidMul where a product occurs (instantiated: lcmD_spec_gen, egcdD_spec_gen). The driver's MODEL column runs GcdD on the received limbs (normalised as the harness's constructors do), no size cap. Tied to the source by a 3-way differential run over zeros, equal, divisibility, common powers of two spanning digits, Fibonacci neighbours, complete sign tables.",
+    "level_note": "Trusted: Lean kernel + {propext, Classical.choice, Quot.sound}; the layering on C01-C03/C07 is a proved refinement (GcdD -> Gcd), not an assumption; Bezout coefficients are compared implementation-vs-model (exact) and implementation-vs-oracle through the identity a*x+b*y = gcd; correspondence strength bounded by the generators.",
 }
 
 PROPS["C02"] = {
